@@ -82,6 +82,7 @@ def generate(unit, repo=REPO, pre_sources=None):
     g.transforms = sorted(ex.transforms | {"T1", "T2"})
     g.vacuity_probes = list(ex.vacuity_probes)
     g.contracted = set(ex.used_contracts)
+    g.lost_hints = list(ex.lost_hints)
     g.fn_ranges = [(f["name"], f["file"], f["line_start"], f["line_end"]) for f in ex.functions]
     return g
 
@@ -116,6 +117,8 @@ if __name__ == "__main__":
         print("verified=%d errors=%d smt_ms=%d wall=%.1fs undecided=%s" % (res.verified, res.errors, res.smt_ms, res.wall_s, res.undecided))
         for m, r in res.raw_compile_errors[:12]:
             print("COMPILE:", r or m)
+        for q, a in getattr(g, "lost_hints", []):
+            print("LOST-HINT %s `%s`" % (q, a))
         for d in res.diags:
             print("FAIL %s\n     %s | %s | clause: %s" % (d.obligation_name(name), d.message, d.text.strip(), (d.callee_clause or d.post_clause).strip()))
         for k, v in sorted(res.functions.items()):
